@@ -292,7 +292,7 @@ def run_one(seed, preset=None, tier="quick", want_case=False):
     r["digest"] = run_digest(out.trace, out.events, out.resp, repr(out.exc))
     r["case_digest"] = run_digest(case.digest(), sorted((repr(p), repr(v[3])[:40]) for p, v in chosen.items()))
     r["nontrivial"] = bool(reached and not viol)
-    r["sched_kinds"] = {sched[0]: 1}
+    r["sched_kinds"] = {sched[0] + ("+eager" if sched[2].endswith("+eager") else ""): 1}
     kinds = {}
     for p, (ty, what, is_res, val) in chosen.items():
         k = "adversarial_" + type(val).__name__
